@@ -1,5 +1,7 @@
 """C15 - printed results can be typed back in. DESIGN.md 3.C15."""
 
+import re
+
 from . import lex, mon
 from .c07 import gen_value
 from .c09 import gen_date, spell
@@ -130,6 +132,11 @@ def run_shard(ctx):
                     detail = 'money:' + code
             elif kind == 'unit':
                 detail = 'unit:%s' % first['v']['group']
-            res.violation('roundtrip:%s:%s' % (detail, lang), '%s (from %r; separators %r, digits %d, zone %s, %s)' % (problem, text, sep, d, dz, lang),
+            if kind == 'duration' and re.search(r'(^| )12 (months|ay)( |$)', o1):
+                detail = 'duration:twelve-months-read-back-as-one-year'
+            sig = 'roundtrip:%s' % detail
+            if kind in ('time', 'date', 'number', 'percent', 'base', 'unit') or detail == 'duration':
+                sig += ':' + lang
+            res.violation(sig, '%s (from %r; separators %r, digits %d, zone %s, %s)' % (problem, text, sep, d, dz, lang),
                           {'config': cfg, 'lang': lang, 'text': o1, 'source': text, 'epoch': epoch,
                            'ops': mon.gh.config_ops(cfg) + [{'op': 'execute', 'lang': lang, 'text': text}, {'op': 'execute', 'lang': lang, 'text': o1}]})
